@@ -6,7 +6,7 @@ from hypothesis import strategies as st
 from hgv import gen
 from hgv.runner import Result, Viol
 from hgv.trace import Trace
-from hgv.worker import HarnessError
+from hgv.worker import HarnessError, Rejected
 
 ID = "C01"
 RULE = ("Random dataflow programs (fan-in/fan-out, diamonds, structural TSL/TSB sources, inlined and nested sub-programs to depth 3, "
@@ -64,8 +64,57 @@ def cycle_case(draw, tier):
     return {"kind": "cycle", "n": n + (1 if nested_hop else 0), "prog": dict(base, stmts=cyc), "prog_cut": dict(base, stmts=cut)}
 
 
+@st.composite
+def hof_case(draw, tier):
+    """a higher-order node (map_) whose broadcast argument is computed by a chain of 0-2 nodes, wired in a random admissible
+    order, the argument optionally tagged passive: the map node reads that argument (its children do), so the argument's
+    producer must have had its turn first"""
+    horizon = draw(st.integers(3, 8))
+    times = sorted(draw(st.sets(st.integers(0, horizon - 1), min_size=2, max_size=5)))
+    chain = draw(st.integers(0, 2))
+    grp_b = [{"id": "s2", "op": "src", "schema": "TS[int]", "script": [[t, [{"k": "set", "v": 1 + i}]] for i, t in enumerate(times)]}]
+    last = "s2"
+    for i in range(chain):
+        grp_b.append({"id": f"c{i}", "op": "node", "ins": [last], "out": "TS[int]", "fn": "sum", "log_inputs": False})
+        last = f"c{i}"
+    grp_d = [{"id": "d", "op": "src", "schema": "TSD[int,TS[int]]", "script": [[t, [{"k": "D", "ops": [["set", 1, 11]]}]] for t in times]}]
+    stmts = (grp_b + grp_d) if draw(st.booleans()) else (grp_d + grp_b)
+    return {"kind": "hof", "end": horizon, "times": times, "b": last, "passive": draw(st.booleans()), "stmts": stmts, "chain": chain}
+
+
 def strategy(tier):
-    return st.one_of(dag_case(tier), dag_case(tier), dag_case(tier), cycle_case(tier))
+    return st.one_of(dag_case(tier), dag_case(tier), dag_case(tier), cycle_case(tier), hof_case(tier))
+
+
+def check_hof(case, ctx, res):
+    F = {"params": ["TS[int]", "TS[int]"], "names": ["x", "bb"], "out": "TS[int]", "ret": "f",
+         "stmts": [{"id": "f", "op": "node", "ins": [{"arg": 0}, {"arg": 1}], "out": "TS[int]", "fn": "sum", "coef": [1, 100], "log_inputs": False}]}
+    stmts = case["stmts"] + [
+        {"id": "m", "op": "op", "name": "map_", "args": [{"fn": "F"}, {"ts": "d"}, {"ts": {"r": case["b"], "passive": True} if case["passive"] else case["b"]}], "has_out": True},
+        {"id": "rec", "op": "node", "ins": ["m"], "deep": True, "valid": []}]
+    resp = ctx.run({"start": 0, "end": case["end"], "subs": {"F": F}, "stmts": stmts})
+    if resp.get("crash"):
+        res.violations.append(Viol("engine_crash", f"worker died: {resp.get('signal')} {resp.get('stderr', '')[-300:]}"))
+        return res
+    if not resp.get("built"):
+        raise Rejected(f"C01 higher-order program rejected: {resp.get('error')}")
+    if resp.get("error"):
+        res.violations.append(Viol("run_failed", f"run threw: {resp['error']}"))
+        return res
+    feats = {"passive_higher_order_arg": case["passive"]}
+    labels = [n["l"] or n["n"] for n in resp["graph"]["nodes"]]
+    im, ib = labels.index("map_"), labels.index(case["b"])
+    if ib > im:
+        res.violations.append(Viol("producer_ranked_after_consumer", f"{case['b']} (index {ib}) produces the broadcast argument of map_ (index {im}) {'(tagged passive) ' if case['passive'] else ''}but is ranked after it: {labels}", feats))
+    got = {e[4]: dict(map(tuple, e[6][0].get("val") or [])).get(1) for e in resp["trace"] if e[0] == "ev" and e[3] == "rec" and e[6][0].get("m")}
+    for i, t in enumerate(case["times"]):
+        exp = 11 + 100 * (1 + i)
+        if got.get(t) != exp:
+            res.violations.append(Viol("consumer_ran_before_producer", f"t={t}: the mapped child computed {got.get(t)} from x=11 and the broadcast argument, whose producer wrote {1 + i} in this cycle (expected {exp}); node order {labels}", feats))
+            break
+    res.nontrivial = case["chain"] >= 1
+    res.labels.append("higher_order_broadcast" + ("_passive" if case["passive"] else ""))
+    return res
 
 
 # ---------------------------------------------------------------------------------------------------------------
@@ -166,6 +215,8 @@ def _check_graph_edges(graph, res, prog, path="r"):
 
 def check(case, ctx) -> Result:
     res = Result()
+    if case["kind"] == "hof":
+        return check_hof(case, ctx, res)
     if case["kind"] == "cycle":
         r1 = ctx.run(case["prog"])
         r2 = ctx.run(case["prog_cut"])
